@@ -45,7 +45,7 @@ func c07(env *core.Env) {
 	ctx := context.Background()
 	// ---- the error ----
 	msgs := []string{"", "something went wrong", "blob unknown: nested", "404 Not Found: fake status prefix", "name unknown", "unknown", "üñí \"quoted\" \\ back", "a: b: c", "denied", "500 Internal Server Error", "(no code)", "x\ny"}
-	details := []string{"", `{"a":1}`, `[1,"two",null]`, `"just a string"`, `{"nested":{"k":[true,false]}}`, `0`}
+	details := []string{"", `{"a":1}`, `[1,"two",null]`, `"just a string"`, `{"nested":{"k":[true,false]}}`, `0`, `{"uploadOffset":9007199254740993}`, `18446744073709551615`, `[1e400,0.1000000000000000055511151231257827]`, `{"a":1,"a":2}`, `"<&>\u2028"`}
 	msg := msgs[c.Int("msg", len(msgs))]
 	detail := details[c.Int("detail", len(details))]
 	var rawDetail json.RawMessage
@@ -201,6 +201,18 @@ func c07(env *core.Env) {
 			if he.StatusCode()/100 != wantStatus/100 {
 				env.Failf(class("status-class"), "%s through %d hop(s): status %d, want class of %d (original error %q)", carrier, hops, he.StatusCode(), wantStatus, orig)
 			}
+			// A HEAD answer has no body, so the code cannot survive; what can is the
+			// status, exactly, and whatever identity the client invents from it has to
+			// be one the specification gives that same status (else the next hop
+			// changes the status).
+			if he.StatusCode() != wantStatus {
+				env.Failf(class("status"), "%s through %d hop(s): status %d, want %d (original error %q, code %q)", carrier, hops, he.StatusCode(), wantStatus, orig, code)
+			}
+			for _, e := range reg.StdErrors {
+				if errors.Is(got, e) && codeStatus[e.Code()] != he.StatusCode() {
+					env.Failf(class("head-identity-status-mismatch"), "%s through %d hop(s): the client reports %s for a HEAD answer with status %d, but the specification gives %s status %d (original error %q)", carrier, hops, e.Code(), he.StatusCode(), e.Code(), codeStatus[e.Code()], orig)
+				}
+			}
 			continue
 		}
 		if he.StatusCode() != wantStatus {
@@ -237,8 +249,12 @@ func jsonEqual(a, b json.RawMessage) bool {
 	if len(bytes.TrimSpace(a)) == 0 && len(bytes.TrimSpace(b)) == 0 {
 		return true
 	}
+	// numbers are compared as written (json.Number), not as float64
 	var x, y any
-	if json.Unmarshal(a, &x) != nil || json.Unmarshal(b, &y) != nil {
+	da, db := json.NewDecoder(bytes.NewReader(a)), json.NewDecoder(bytes.NewReader(b))
+	da.UseNumber()
+	db.UseNumber()
+	if da.Decode(&x) != nil || db.Decode(&y) != nil {
 		return false
 	}
 	return reflect.DeepEqual(x, y)
